@@ -367,6 +367,9 @@ class PDFStandardSecurityHandler:
         if self.r not in self.supported_revisions:
             error_msg = "Unsupported revision: param=%r" % self.param
             raise PDFEncryptionError(error_msg)
+        if self.length < 40:
+            error_msg = "Unsupported key length: param=%r" % self.param
+            raise PDFEncryptionError(error_msg)
         self.init_key()
 
     def init_params(self) -> None:
